@@ -30,7 +30,9 @@ root = os.getcwd()
 repo = os.environ.get("VERIF_REPO", "/repo")
 ov = {"Replace": {}}
 for dst, src in [(os.path.join(repo, "rscp", "zz_verif_hook.go"), os.path.join(root, "harness", "overlay", "zz_verif_hook.go")),
-                 (os.path.join(repo, "cmd", "e3dc", "zz_verif_main.go"), os.path.join(root, "harness", "overlay", "zz_verif_main.go"))]:
+                 (os.path.join(repo, "cmd", "e3dc", "zz_verif_main.go"), os.path.join(root, "harness", "overlay", "zz_verif_main.go")),
+                 (os.path.join(repo, "cmd", "e3dc", "zz_verif_decode.go"), os.path.join(root, "harness", "overlay", "zz_verif_decode.go")),
+                 (os.path.join(repo, "cmd", "e3dc", "zz_verif_wire.go"), os.path.join(root, "harness", "wire.go"))]:
     if os.path.exists(src):
         ov["Replace"][dst] = src
 json.dump(ov, open(os.path.join(root, ".build", "overlay.json"), "w"))
